@@ -478,6 +478,9 @@ def stress(out, judge, wd, rng, tot, runs, ops):
 def replay(path, out):
     wd = core.workdir(PROP + "_replay")
     obj = json.load(open(path))["replay"]
+    if obj.get("component") in ("trigger", "trigger-stress"):
+        from checks import k_trigger
+        return k_trigger.replay(path, out)
     n = obj["n"]
     judge = Judge(wd)
     if "case" in obj:
@@ -511,3 +514,6 @@ def run(tier, out):
     _run_primitive(tier, out)
     from checks import k_inactivity
     k_inactivity.run_use(tier, out)
+    # the one-shot trigger / promise that carries the stop signal to every task (Trigger.tla, K level)
+    from checks import k_trigger
+    k_trigger.run_k(tier, out, core.workdir(PROP + "_ktrig"), prop="C17")
